@@ -121,14 +121,14 @@ Lemma parse_wei_multiple n : 0 <= n -> parse_wei (to_wei n) = Some (to_wei n).
 Proof.
   intro Hn. unfold parse_wei, to_wei, WEI in *. destruct (Z.leb_spec (n * 1000000000000) 0); [f_equal|].
   destruct (Z.ltb_spec (n * 1000000000000) 1000000000000); [lia|].
-  unfold to_native, WEI. rewrite Z.div_mul by lia. reflexivity.
+  unfold to_native, WEI. rewrite Z.quot_mul by lia. reflexivity.
 Qed.
 
 Lemma parse_wei_spec w w' : parse_wei w = Some w' -> w' <= w /\ (0 < w -> 0 < w' /\ w - w' < WEI /\ w' mod WEI = 0).
 Proof.
   unfold parse_wei. destruct (Z.leb_spec w 0); [intros [= <-]; split; lia|].
   destruct (Z.ltb_spec w WEI); [discriminate|]. intros [= <-].
-  unfold to_wei, to_native, WEI in *. pose proof (Z.div_mod w 1000000000000 ltac:(lia)).
+  unfold to_wei, to_native, WEI in *. rewrite Z.quot_div_nonneg by lia. pose proof (Z.div_mod w 1000000000000 ltac:(lia)).
   pose proof (Z.mod_pos_bound w 1000000000000 ltac:(lia)).
   assert (1 <= w / 1000000000000) by (apply Z.div_le_lower_bound; lia).
   split; [lia|]. intros _. split; [lia|]. split; [lia|]. apply Z.mod_mul. lia.
@@ -236,7 +236,10 @@ Qed.
 
 Lemma whole_unibi_iff z : z mod WEI = 0 -> to_wei (to_native z) = z.
 Proof.
-  intro H. unfold to_wei, to_native. pose proof (Z.div_mod z WEI ltac:(unfold WEI; lia)). lia.
+  intro H. unfold to_wei, to_native.
+  assert (Hr : Z.rem z WEI = 0).
+  { apply Z.rem_divide; [unfold WEI; lia|]. apply Z.mod_divide; [unfold WEI; lia|exact H]. }
+  pose proof (Z.quot_rem' z WEI). lia.
 Qed.
 
 Theorem whole_amounts_whole_world k ops :
